@@ -415,12 +415,8 @@ func targetFlag(p *Program, li leafInsert) (bool, string) {
 		}
 		if c, isCall := g.Cond.(*ssa.Call); isCall {
 			// the search extracted into a helper: contains(targets, pos)
-			if sc := c.Common().StaticCallee(); sc != nil && p.owns(sc) {
-				if si, vi, ok := membershipHelper(sc); ok && si < len(c.Common().Args) && vi < len(c.Common().Args) {
-					if c.Common().Args[vi] == li.pos && derivesFromTargets(p, c.Common().Args[si], 0, map[ssa.Value]bool{}) {
-						return true, "dominated by a call of " + p.FuncName(sc) + ", which returns true only under (position == an element of the target positions)"
-					}
-				}
+			if sc := c.Common().StaticCallee(); sc != nil && targetMembershipCall(p, c, li.pos) {
+				return true, "dominated by a call of " + p.FuncName(sc) + ", which returns true only under (position == an element of the target positions)"
 			}
 			continue
 		}
@@ -505,6 +501,12 @@ func flagOnlyUnderTargetEq(p *Program, phi *ssa.Phi, pos ssa.Value, seen map[*ss
 			pred := phi.Block().Preds[i]
 			ok := false
 			for _, g := range guardsAt(pred) {
+				if c, isCall := g.Cond.(*ssa.Call); isCall && g.Truth {
+					if targetMembershipCall(p, c, pos) {
+						ok = true
+					}
+					continue
+				}
 				rel, isRel := relOf(g)
 				if !isRel || rel.Op != token.EQL {
 					continue
@@ -551,6 +553,10 @@ func runC10(p *Program, r *Report) {
 		// (c) restore from a stream
 		if rd, _ := hasStreamParam(fn.Signature); rd {
 			r.Discharge("R10a", key, posOf(p, li.in), "restore: the key is read back from the serialised stream (consistency is gated by R13d)", false)
+			continue
+		}
+		if fn.Parent() == nil && onlyCalledFromRestore(p, fn, 0) {
+			r.Discharge("R10a", key, posOf(p, li.in), "restore: the insertion is in a helper that only the restore functions call; the key is read back from the serialised stream (consistency is gated by R13d)", false)
 			continue
 		}
 		if ok, why := updateOnly(p, li); ok {
@@ -711,4 +717,135 @@ func keyFromElem(p *Program, v ssa.Value, isElem map[ssa.Value]bool) bool {
 		}
 	}
 	return false
+}
+
+// targetMembershipCall: c calls a helper of the package that returns true only
+// under an equality between the position argument pos and (something derived
+// from) an element of a list argument, and that list argument derives from
+// the targets of a proof. Two shapes of helper are recognised: the search that
+// returns the constant true at the match (membershipHelper), and the scan that
+// returns a flag set at the match (flagHelper).
+func targetMembershipCall(p *Program, c *ssa.Call, pos ssa.Value) bool {
+	sc := c.Common().StaticCallee()
+	if sc == nil || !p.owns(sc) {
+		return false
+	}
+	args := c.Common().Args
+	if si, vi, ok := membershipHelper(sc); ok && si < len(args) && vi < len(args) {
+		if args[vi] == pos && derivesFromTargets(p, args[si], 0, map[ssa.Value]bool{}) {
+			return true
+		}
+	}
+	if si, vi, ok := flagHelper(sc); ok && si < len(args) && vi < len(args) {
+		if args[vi] == pos && derivesFromTargets(p, args[si], 0, map[ssa.Value]bool{}) {
+			return true
+		}
+	}
+	return false
+}
+
+// flagHelper recognises  func(..., v T, s []T, ...) bool  whose result is a flag
+// that starts false and is set to true only under an equality between v and a
+// value computed from an element of s.
+func flagHelper(f *ssa.Function) (int, int, bool) {
+	if f.Blocks == nil || f.Signature.Results().Len() != 1 {
+		return 0, 0, false
+	}
+	if b, ok := f.Signature.Results().At(0).Type().Underlying().(*types.Basic); !ok || b.Kind() != types.Bool {
+		return 0, 0, false
+	}
+	si, vi := -1, -1
+	for i, par := range f.Params {
+		if f.Signature.Recv() != nil && i == 0 {
+			continue
+		}
+		if isSliceT(par.Type()) && si < 0 {
+			si = i
+		} else if _, isBasic := par.Type().Underlying().(*types.Basic); isBasic && vi < 0 {
+			vi = i
+		}
+	}
+	if si < 0 || vi < 0 {
+		return 0, 0, false
+	}
+	fromList := func(v ssa.Value) bool {
+		return flowsFrom(v, func(x ssa.Value) bool { return x == ssa.Value(f.Params[si]) }, 0, map[ssa.Value]bool{})
+	}
+	var flagOK func(v ssa.Value, seen map[*ssa.Phi]bool) (bool, bool)
+	flagOK = func(v ssa.Value, seen map[*ssa.Phi]bool) (ok, sawTrue bool) {
+		switch x := v.(type) {
+		case *ssa.Const:
+			return x.Value != nil && x.Value.String() == "false", false
+		case *ssa.Phi:
+			if seen[x] {
+				return true, false
+			}
+			seen[x] = true
+			for i, e := range x.Edges {
+				if c, isConst := e.(*ssa.Const); isConst && c.Value != nil && c.Value.String() == "true" {
+					under := false
+					for _, g := range guardsAt(x.Block().Preds[i]) {
+						rel, isRel := relOf(g)
+						if !isRel || rel.Op != token.EQL {
+							continue
+						}
+						if (rel.X == ssa.Value(f.Params[vi]) && fromList(rel.Y)) || (rel.Y == ssa.Value(f.Params[vi]) && fromList(rel.X)) {
+							under = true
+						}
+					}
+					if !under {
+						return false, false
+					}
+					sawTrue = true
+					continue
+				}
+				o, t := flagOK(e, seen)
+				if !o {
+					return false, false
+				}
+				sawTrue = sawTrue || t
+			}
+			return true, sawTrue
+		}
+		return false, false
+	}
+	saw := false
+	for _, ret := range returnsOf(f) {
+		o, t := flagOK(ret.Results[0], map[*ssa.Phi]bool{})
+		if !o {
+			return 0, 0, false
+		}
+		saw = saw || t
+	}
+	return si, vi, saw
+}
+
+// onlyCalledFromRestore: fn has callers, and each of them is a function with a
+// stream-reader parameter or is itself only called from such functions.
+func onlyCalledFromRestore(p *Program, fn *ssa.Function, depth int) bool {
+	if depth > 3 {
+		return false
+	}
+	callers := 0
+	for _, g := range p.Funcs {
+		for _, b := range g.Blocks {
+			for _, in := range b.Instrs {
+				c, ok := in.(ssa.CallInstruction)
+				if !ok || c.Common().StaticCallee() != fn {
+					continue
+				}
+				callers++
+				if g == fn {
+					continue
+				}
+				if rd, _ := hasStreamParam(g.Signature); rd {
+					continue
+				}
+				if !onlyCalledFromRestore(p, g, depth+1) {
+					return false
+				}
+			}
+		}
+	}
+	return callers > 0
 }
